@@ -88,6 +88,16 @@ def fault_job(job):
             if sep == '' and gbg[:1].isalnum() and text[-1:].isalnum():
                 continue
             out.append(('trailing garbage', t2, props, PC.impl_parse(t2, props)))
+        # a line of stray tokens is not protected by a `//` comment on the line above it, whatever that comment ends
+        # with (backslash = no line continuation in DBML)
+        toks0 = GT.tokens(text)       # strings, comments and expressions are single tokens: a '\n' token is outside them
+        cand = [i for i, t in enumerate(toks0) if t == '\n']
+        rng.shuffle(cand)
+        for i in cand[:6]:
+            for tail in ('\\', ' \\', 'C:\\dir\\', '\\\\'):
+                gbg = rng.choice(['} {', ')(', 'Table {', '] [', 'x y z ,'])
+                t2 = ''.join(toks0[:i + 1] + ['// see ' + tail, '\n', gbg, '\n'] + toks0[i + 1:])
+                out.append(('garbage line after a // comment ending in a backslash', t2, props, PC.impl_parse(t2, props)))
         toks = GT.tokens(text)
         strs = [i for i, t in enumerate(toks) if len(t) >= 2 and t[0] in '\'"' and t[-1] == t[0]]
         if strs:
